@@ -726,9 +726,18 @@ class VerifyingBase(LookupBaseFallback):  # noqa F821
     # zope.component.persistentregistry
 
     def changed(self, originally_changed):
+        # Read the generations, drop the caches, and only then record what
+        # was read.  A base registry changed (by another thread) after the
+        # generations were read is noticed by the next lookup; read after
+        # the caches were dropped, its new generation would vouch for a
+        # result that another lookup computed from its old state and
+        # stored in between.  Recorded before the caches are dropped, the
+        # generations would vouch for the old contents of the caches.
+        verify_ro = self._registry.ro[1:]
+        verify_generations = [r._generation for r in verify_ro]
         LookupBaseFallback.changed(self, originally_changed)  # noqa F821
-        self._verify_ro = self._registry.ro[1:]
-        self._verify_generations = [r._generation for r in self._verify_ro]
+        self._verify_ro = verify_ro
+        self._verify_generations = verify_generations
 
     def _verify(self):
         if (
